@@ -160,8 +160,8 @@ func (m *mock) Go(b *board.Board, opts ...search.Option) (chess.Score, move.Move
 }
 
 type e2eResult struct {
-	soft     int64
-	deadline time.Duration // virtual time between search start (or ponderhit) and Stop closing
+	soft       int64
+	deadline   time.Duration // virtual time between search start (or ponderhit) and Stop closing
 	timedOut   bool
 	bestmove   bool
 	noDeadline bool // the stop channel was still open after the whole clock had run out
